@@ -17,13 +17,8 @@ def slice_for(t):
 
 
 def extract(t):
-    var = TY_VARIANT[t]
-    return ("let (rows, cols, data): (usize, usize, Vec<%s>) = match &v { Value::%s(o) => (1, 1, vec![o.borrow().clone()]), Value::Matrix%s(m) => match m { "
-            "Matrix::DVector(o) => { let o = o.borrow(); (o.nrows(), o.ncols(), o.iter().cloned().collect()) }, "
-            "Matrix::RowDVector(o) => { let o = o.borrow(); (o.nrows(), o.ncols(), o.iter().cloned().collect()) }, "
-            "Matrix::DMatrix(o) => { let o = o.borrow(); (o.nrows(), o.ncols(), o.iter().cloned().collect()) }, "
-            "_ => { assert!(false, \"VP:wrong-result-kind\"); (0, 0, Vec::new()) } }, "
-            "_ => { assert!(false, \"VP:wrong-result-kind\"); (0, 0, Vec::new()) } };" % (t, var, var))
+    from .c03 import extract as c03_extract
+    return c03_extract(t, "")
 
 
 def block_value(t, k, form, shape):
@@ -55,7 +50,7 @@ def gen_cat(direction, t, blocks, tier):
     b.append("    f.solve();")
     b.append("    let v = f.out();")
     b.append("    " + extract(t))
-    b.append("    assert!(rows == %d && cols == %d && data.len() == %d, \"VP:wrong-shape\");" % (R, C, R * C))
+    b.append("    assert!(rows == %d && cols == %d, \"VP:wrong-shape\");" % (R, C))
     checks = []
     off = 0
     for k, (form, (r, c)) in enumerate(blocks):
@@ -63,15 +58,15 @@ def gen_cat(direction, t, blocks, tier):
             for i in range(r):
                 src = "b%d[%d]" % (k, i + j * r)
                 if direction == "h":
-                    dst = "data[%d]" % (i + (off + j) * R)
+                    dst = "rd(%d)" % (i + (off + j) * R)
                 else:
-                    dst = "data[%d]" % ((off + i) + j * R)
+                    dst = "rd(%d)" % ((off + i) + j * R)
                 checks.append(eq_expr(t, dst, src))
         off += c if direction == "h" else r
-    b.append("    assert!(%s, \"VP:block-element-misplaced\");" % " && ".join(checks))
+    b.append("    if rows == %d && cols == %d { assert!(%s, \"VP:block-element-misplaced\"); }" % (R, C, " && ".join(checks)))
     b.append("    f.solve(); let v2 = f.out();")
     b.append("    kani::cover!(true, \"VP:reached\");")
-    b.append("    forget(data); forget(v); forget(v2); forget(f);")
+    b.append("    forget(v); forget(v2); forget(f);")
     b.append("  }")
     b.append("}")
     b.append("forget(args);")
@@ -82,7 +77,7 @@ def gen_cat(direction, t, blocks, tier):
                   ", ".join("%s %dx%d" % (f, s[0], s[1]) for f, s in blocks), t, R, C),
           functions=["%s (src/interpreter/src/stdlib/%s: pattern table, output allocation)" % (fxn, where[1].split("/")[-1]),
                      "concatenation struct solve/out + CopyMat::copy_into* (src/core/src/structures/matrix.rs)"],
-          bounds="%d blocks, result %dx%d, all element values" % (len(blocks), R, C), unwind=R * C + 4, tier=tier,
+          bounds="%d blocks, result %dx%d, all element values" % (len(blocks), R, C), unwind=max(R, C, len(blocks)) + 2, tier=tier,
           group=fxn, solver="kissat")
     h.slice = slice_for(t)
     h.heavy = True
